@@ -36,6 +36,16 @@ def init_state(repo, canon, cls_name):
 
     def block(stmts, cond):
         for st in stmts:
+            if isinstance(st, ast.Assign) and len(st.targets) == 1 and isinstance(st.targets[0], (ast.Tuple, ast.List)) \
+                    and isinstance(st.value, (ast.Tuple, ast.List)) and len(st.targets[0].elts) == len(st.value.elts):
+                # a, self.b = x, y : pairwise (the right-hand sides are evaluated first, which matters only
+                # when one reads a target of the same statement -- such a pair is left unknown)
+                written = {ast.unparse(t) for t in st.targets[0].elts}
+                pairs_ = list(zip(st.targets[0].elts, st.value.elts))
+                if not any(ast.unparse(x) in written for _t, v_ in pairs_ for x in ast.walk(v_)
+                           if isinstance(x, (ast.Name, ast.Attribute))):
+                    block([ast.copy_location(ast.Assign(targets=[t_], value=v_, type_comment=None), st) for t_, v_ in pairs_], cond)
+                    continue
             if isinstance(st, ast.Assign):
                 val = resolve_object(st.value, env)
                 for t in st.targets:
